@@ -7,5 +7,8 @@ CONSTANTS
   OutFileP = "once_sched_2p.ndjson"
   ZeroKeySets <- AnyZeroKeys
   PanicKeySets <- OnePanicKey
+  Dep <- NoDeps
+  NCPU = 16
+  Limiter = FALSE
 INVARIANTS Emit GenOK NoStuck
 CHECK_DEADLOCK FALSE
